@@ -612,6 +612,10 @@ theorem index_tests_agree (n i : Int) :
     (edgeIndexBad n i = graphNodeIndexBad n i) := by
   simp [reactionIndexOk, speciesIndexOk, environmentIndexOk, edgeIndexBad, graphNodeIndexBad]
 
+/-- `get_species_index` resolves a label against the network's CURRENT species list: it reads no other state of the
+object (no cached table that a later `net.species = […]` would leave stale) -/
+theorem species_lookup_is_stateless : speciesLookupState = ["nspecies", "species"] := by decide +kernel
+
 /-- an unknown species (label not declared, index outside `[0, ns)`) has no index … -/
 theorem species_unknown_iff (labels : List (Option Label)) (s : SpeciesRef) :
     vSpeciesIndex labels s = none ↔
